@@ -237,7 +237,7 @@ theorem prune_sound (opq : String → List (F × Nat) → List (Kid K F) → Opt
   intro b
   induction b with
   | ret e => intro known _; rfl
-  | opaque n => intro known _; rfl
+  | «opaque» n => intro known _; rfl
   | ite c t e iht ihe =>
     intro known hk
     simp only [prune]
